@@ -32,7 +32,7 @@ COMPONENTS = {
     'stub': ['WSGI/ASGI servers', 'event loop scheduler', 'generated exception classes, handlers, middleware, '
              'hooks, responder, failing media handler / render_body'],
 }
-EXPECTED_PROBES = ('raised_in_mw', 'raised_in_hook', 'raised_in_responder', 'raised_in_response_mw',
+EXPECTED_PROBES = ('hostile_str', 'raised_in_mw', 'raised_in_hook', 'raised_in_responder', 'raised_in_response_mw',
                    'raised_in_render', 'default_http_handler', 'default_status_handler',
                    'default_python_handler', 'custom_handler', 'handler_raised_http', 'handler_raised_status',
                    'xml_body', 'json_body', 'custom_media_body', 'no_body_negotiated', 'multi_inheritance')
@@ -95,7 +95,9 @@ def gen_error_args(ch):
         'code': ch.choice([None, 0, 7, 123456789, -3], 'code'),
         'href': ch.choice(HREFS, 'href'),
         'href_text': ch.choice([None, 'Read më'], 'href_text'),
-        'headers': ch.choice([None, {'X-Err': 'one'}, [('X-Err', 'lst'), ('Retry-After', '12')]], 'err_headers'),
+        'headers': ch.choice([None, {'X-Err': 'one'}, [('X-Err', 'lst'), ('Retry-After', '12')],
+                              {'Vary': 'Accept-Language'}, [('Vary', 'Accept-Encoding, Cookie'), ('X-Err', 'v')]],
+                             'err_headers'),
     }
 
 
@@ -184,6 +186,8 @@ def run(ctx):
     plan = gen_stack(ch, max_components=2)
     plan['routed'] = True
     render_kind = ch.choice(['media', 'render_body'], 'render_kind')
+    pre_vary = ch.choice([None, None, 'Accept-Encoding', 'Origin, Accept-Language'], 'pre_vary')
+    hostile = ch.draw(4, 'hostile_str') == 3
     fam_of = {n: f for n, _b, f in spec}
     fam_of.update({'HTTPError': 'http', 'HTTPNotFound': 'http', 'HTTPStatus': 'status', 'ValueError': 'app'})
     ns['HTTPNotFound'] = falcon.HTTPNotFound
@@ -220,12 +224,24 @@ def run(ctx):
     ctx.plan = {'classes': spec, 'registrations': regs, 'behaviours': behaviours, 'raise': raise_cls,
                 'raise_site': raise_site, 'err': err_args, 'status': st_args, 'accept': accept,
                 'xml': xml_on, 'custom_media': custom_on, 'asgi': asgi, 'stack': plan,
-                'render_kind': render_kind}
+                'render_kind': render_kind, 'pre_vary': pre_vary, 'hostile_str': hostile}
     ctx.plan_key = json.dumps(ctx.plan, sort_keys=True, default=repr)
 
     calls = []          # (handler idx, class name of ex, text/data/media at entry)
     raised = {}
     the_exc = make_exc(raise_cls, err_args, st_args)
+    if hostile and fam_of[raise_cls] == 'app' and raise_cls != 'ValueError':
+        # an exception whose __str__/__repr__ misbehave is still "any other Exception"
+        class _Hostile(type(the_exc)):
+            def __str__(self):
+                return 5            # TypeError: __str__ returned non-string
+
+            def __repr__(self):
+                raise RuntimeError('repr is broken too')
+        _Hostile.__name__ = type(the_exc).__name__
+        ns[raise_cls + '!hostile'] = _Hostile
+        the_exc = _Hostile('boom')
+        ctx.probe('hostile_str')
 
     def act(site):
         if site != raise_site:
@@ -236,6 +252,8 @@ def run(ctx):
             resp.text = 'stale text'
             resp.data = b'stale data'
             resp.media = {'stale': True}
+            if pre_vary:
+                resp.set_header('Vary', pre_vary)
             raised['site'] = site
             raise the_exc
         return go
@@ -345,8 +363,11 @@ def run(ctx):
     ctx.event('resp', status, len(body), calls)
     stack = 'asgi' if asgi else 'wsgi'
     if app_exc is not None:
+        sk = ('none' if raise_site is None else 'render' if raise_site == 'render' else
+              'response_mw' if raise_site.endswith('.response') else 'hook' if raise_site.startswith('hook')
+              else 'responder' if raise_site == 'responder' else 'mw')
         ctx.violate('errors.escaped', 'exception %r escaped the app callable (raised %s at %s)' % (
-            app_exc, raise_cls, raise_site), site=raise_site, stack=stack)
+            app_exc, raise_cls, raise_site), site=sk, stack=stack)
         return
     if raise_site is None or 'site' not in raised:
         if status != 200:
@@ -448,10 +469,16 @@ def run(ctx):
         return
     eh = ea['headers']
     for n, v in (eh.items() if isinstance(eh, dict) else (eh or [])):
-        if (n.lower(), v) not in hl:
+        if n.lower() == 'vary':
+            have = [t.strip().lower() for hn, hv in hl if hn == 'vary' for t in hv.split(',')]
+            if not all(t.strip().lower() in have for t in v.split(',')):
+                ctx.violate('errors.rendering.headers', 'HTTPError Vary %r lost: %r' % (v, have), **sig)
+        elif (n.lower(), v) not in hl:
             ctx.violate('errors.rendering.headers', 'HTTPError header %r missing in %r' % (n, hl), **sig)
-    if not any(n == 'vary' and 'accept' in v.lower() for n, v in hl):
-        ctx.violate('errors.rendering.vary', 'Vary: Accept missing (headers %r)' % (hl,), **sig)
+    vary_tokens = [t.strip().lower() for n, v in hl if n == 'vary' for t in v.split(',')]
+    if 'accept' not in vary_tokens:
+        ctx.violate('errors.rendering.vary', 'Vary does not list Accept (Vary tokens %r, error headers %r, '
+                    'pre-set Vary %r)' % (vary_tokens, eh, pre_vary), **sig)
     # reference to_dict()
     title = ea['title'] or falcon.code_to_http_status(ea['status'])
     ref = {'title': title}
